@@ -47,7 +47,7 @@ func parseFrame(s *tokStream) (*frame, error) {
 				return nil, err
 			}
 			switch e {
-			case "stop", "revert", "invalid", "oog", "retbig", "rethuge":
+			case "stop", "revert", "invalid", "oog", "retbig", "retmax", "rethuge":
 				f.end = e
 			case "retcode":
 				f.end = e
